@@ -147,6 +147,16 @@ func (p *c10) Prepare(t *testing.T, tier string, seed uint64) {
 				for g := 0; g < nb; g++ {
 					plans = append(plans, C10Plan{Seed: base.Seed, Key: f.Key, Enc: f.Enc, Proto: proto, Phase: pos.Phase, Msg: pos.Msg, Occur: pos.Occur, Wire: pos.Wire, Kind: "bomb", Ord: g})
 				}
+				if pos.Phase == "req" && pos.Msg == 68 && pos.Occur == 0 && !pos.Wire && fi == 0 {
+					// well-formed but hostile devmod histories from an authenticated device
+					ns := 240
+					if tier == "thorough" {
+						ns = 4000
+					}
+					for g := 0; g < ns; g++ {
+						plans = append(plans, C10Plan{Seed: base.Seed, Key: f.Key, Enc: f.Enc, Sql: g%16 == 7, Proto: proto, Phase: pos.Phase, Msg: pos.Msg, Occur: pos.Occur, Kind: "script", Ord: g})
+					}
+				}
 				if pos.Phase == "req" && !pos.inTunnel() {
 					plans = append(plans, C10Plan{Seed: base.Seed, Key: f.Key, Enc: f.Enc, Sql: fi == 0, Proto: proto, Phase: pos.Phase, Msg: pos.Msg, Occur: pos.Occur, Wire: pos.Wire, Kind: "dup"})
 					plans = append(plans, C10Plan{Seed: base.Seed, Key: f.Key, Enc: f.Enc, Proto: proto, Phase: pos.Phase, Msg: pos.Msg, Occur: pos.Occur, Wire: pos.Wire, Kind: "dup"})
@@ -192,6 +202,121 @@ func (p *c10) Shrink(plan any) []any {
 func (p *c10) Exec(env *Env, plan any) {
 	pl := plan.(*C10Plan)
 	c10Run(env, pl, nil, p.alloc[pl.Key+"/"+pl.Proto])
+}
+
+// c10DevmodScript returns a syntactically valid TO2.DeviceServiceInfo whose
+// devmod key/values form a hostile history: module-list chunks that overlap,
+// repeat, overrun or precede nummodules, counts that change mid-way, values
+// of the wrong type.
+func c10DevmodScript(seed uint64, ord int) ([]byte, string) {
+	r := rand.New(rand.NewPCG(seed^0xdeed, uint64(ord)))
+	enc := func(v any) []byte { return c10Enc(v) }
+	var kvs []any
+	var desc []string
+	kv := func(key string, val any) {
+		kvs = append(kvs, []any{key, enc(val)})
+		desc = append(desc, fmt.Sprintf("%s=%v", strings.TrimPrefix(key, "devmod:"), val))
+	}
+	ns := []int64{0, 1, 2, 3, 3, 4, 5, 8, 255, 256, 65535, 1 << 20, 1 << 31, -1}
+	n := ns[r.IntN(len(ns))]
+	nearValid := ord%4 != 3
+	if nearValid {
+		// most scripts stay close to a valid history: small list, chunks placed
+		// around the fill level and the end of the list
+		n = int64(1 + r.IntN(6))
+	}
+	filled := int64(0)
+	if r.IntN(5) != 0 {
+		kv("devmod:active", true)
+	}
+	if r.IntN(6) != 0 || nearValid {
+		kv("devmod:nummodules", n)
+	}
+	steps := 1 + r.IntN(5)
+	for i := 0; i < steps; i++ {
+		switch r.IntN(10) {
+		case 0:
+			kv("devmod:nummodules", ns[r.IntN(len(ns))])
+		case 1:
+			kv("devmod:"+[]string{"os", "arch", "version", "device", "sep", "bin", "sn", "pathsep", "nl", "tmp", "dir", "progenv", "mudurl"}[r.IntN(13)],
+				[]any{int64(1), "x", []byte{1}, nil, true, []any{}}[r.IntN(6)])
+		default:
+			starts := []int64{0, 0, 1, 2, n - 1, n, n + 1, -1, 1 << 31}
+			lens := []int64{0, 1, 2, 2, 3, n, n + 1, -1, 255}
+			st, ln := starts[r.IntN(len(starts))], lens[r.IntN(len(lens))]
+			if nearValid {
+				ln = []int64{1, 1, 2, 2, 3, n - filled, n - filled + 1}[r.IntN(7)]
+				st = []int64{0, 0, filled - 1, filled, filled, filled + 1, n - ln, n - ln + 1, n - 1}[r.IntN(9)]
+				if ln < 0 {
+					ln = 1
+				}
+				if st < 0 {
+					st = 0
+				}
+				filled = min(n, filled+ln)
+			}
+			cnt := ln
+			if r.IntN(5) == 0 {
+				cnt = ln + int64(r.IntN(3)) - 1
+			}
+			if cnt < 0 || cnt > 300 {
+				cnt = int64(r.IntN(3))
+			}
+			chunk := []any{st, ln}
+			for j := int64(0); j < cnt; j++ {
+				name := fmt.Sprintf("m%d", r.IntN(6))
+				if r.IntN(12) == 0 {
+					name = ""
+				}
+				chunk = append(chunk, name)
+			}
+			kv("devmod:modules", chunk)
+		}
+	}
+	more := r.IntN(2) == 0
+	return enc([]any{more, kvs}), fmt.Sprintf("devmod-script#%d more=%v %s", ord, more, strings.Join(desc, " "))
+}
+
+// c10Enc is a minimal CBOR encoder for script values.
+func c10Enc(v any) []byte {
+	head := func(major byte, n uint64) []byte {
+		switch {
+		case n < 24:
+			return []byte{major<<5 | byte(n)}
+		case n < 1<<8:
+			return []byte{major<<5 | 24, byte(n)}
+		case n < 1<<16:
+			return []byte{major<<5 | 25, byte(n >> 8), byte(n)}
+		case n < 1<<32:
+			return []byte{major<<5 | 26, byte(n >> 24), byte(n >> 16), byte(n >> 8), byte(n)}
+		}
+		return []byte{major<<5 | 27, byte(n >> 56), byte(n >> 48), byte(n >> 40), byte(n >> 32), byte(n >> 24), byte(n >> 16), byte(n >> 8), byte(n)}
+	}
+	switch x := v.(type) {
+	case nil:
+		return []byte{0xf6}
+	case bool:
+		if x {
+			return []byte{0xf5}
+		}
+		return []byte{0xf4}
+	case int64:
+		if x < 0 {
+			return head(1, uint64(-1-x))
+		}
+		return head(0, uint64(x))
+	case string:
+		return append(head(3, uint64(len(x))), x...)
+	case []byte:
+		return append(head(2, uint64(len(x))), x...)
+	case []any:
+		b := head(4, uint64(len(x)))
+		for _, e := range x {
+			b = append(b, c10Enc(e)...)
+		}
+		return b
+	}
+	panic(fmt.Sprintf("c10Enc: unsupported %T", v))
 }
 
 // c10Bomb returns hostile shapes: deep nesting, inflated lengths, huge heads.
@@ -359,6 +484,8 @@ func c10Run(env *Env, pl *C10Plan, collect map[c10Pos][]byte, baseAlloc uint64) 
 		case "bomb":
 			nb = c10Bomb(pl.Ord)
 			desc = fmt.Sprintf("bomb#%d", pl.Ord)
+		case "script":
+			nb, desc = c10DevmodScript(pl.Seed, pl.Ord)
 		default:
 			nb = orig
 		}
